@@ -58,6 +58,11 @@ def body(E, cfg):
         segs = [AlignmentSegment(pairs[:split], 1.0, Peak(0, 1.), pairs), AlignmentSegment(pairs[split:], 1.0, Peak(5, 1.), pairs)]
     else:
         segs = [AlignmentSegment(pairs, 1.0, Peak(0, 1.), pairs)]
+    # a chained segment that conflict resolution trimmed away entirely stays in the record as an empty segment (AlignmentSegment.create of
+    # nothing): in front of, between or behind the segments that kept pairs
+    for where in cfg.get("empty", ()):
+        hole = AlignmentSegment.create([], Peak(9, 1.), [])
+        segs.insert({"first": 0, "middle": 1, "last": len(segs)}[where], hole)
     row = AlignmentResultRow(segs, reverseStrand=rev)
     saved = ar.__dict__.get("range")
     ar.range = lazy_range
@@ -120,6 +125,11 @@ def configs(tier):
             cfgs.append({"n": n, "G": G, "rev": rev})
             if n >= 2:
                 cfgs.append({"n": n, "G": G, "rev": rev, "split": n // 2})
+            if n <= 3:
+                cfgs.append({"n": n, "G": G, "rev": rev, "empty": ["first"]})
+                cfgs.append({"n": n, "G": G, "rev": rev, "empty": ["last"]})
+                if n >= 2:
+                    cfgs.append({"n": n, "G": G, "rev": rev, "split": 1, "empty": ["first", "middle"]})
     return cfgs
 
 
@@ -134,7 +144,8 @@ def units(prop):
                    "src.alignment.alignment_results:AlignmentResultRow.__removeDuplicateQueryPositionsPreservingLastOne",
                    "src.alignment.alignment_results:AlignmentResultRow.__hitToString"],
         bounds="n = 1..4 pairs with label gaps 1..3 on both maps (quick) / n = 1..6, gaps 1..4 (thorough, n = 6 under the budget); both orientations; the "
-               "pairs in one segment or split over two; first pair's label numbers are unbounded symbolic integers >= 1",
+               "pairs in one segment or split over two; for n <= 3 also with emptied segments in front of, between or behind them; first pair's label "
+               "numbers are unbounded symbolic integers >= 1",
         nontrivial_rule="row with at least two pairs",
         assumptions=["the pairs form a valid matching (strictly ascending reference labels, strictly monotone query labels): C01"],
         stubs=["builtin range shadowed inside src.alignment.alignment_results by an equivalent lazy generator (no realisation of "
